@@ -476,6 +476,11 @@ func runHistories(r *ev.Run) {
 		variants = append(variants, chain.GenesisOptions{EpochInterval: 3, DebondingInterval: 2, NodeExpiration: 14, Prefix: []string{"reclaim(a0<-e0,100sh)", "reclaim(e1<-e1,333sh)"}})
 	}
 	if prop == "C05" || prop == "C15" {
+		// debonding in flight and an equivocation penalty that takes everything: the debonding delegations are
+		// worth nothing when their period ends
+		variants = append(variants, chain.GenesisOptions{EpochInterval: 3, DebondingInterval: 2, NodeExpiration: 14, SlashAmount: 1000000, Prefix: []string{"reclaim(a0<-e0,100sh)", "reclaim(e1<-e1,333sh)"}})
+	}
+	if prop == "C05" || prop == "C15" {
 		// entities delegating to each other: an escrow account that is itself a delegator elsewhere,
 		// with reclaims of all parties ending at the same epoch
 		variants = append(variants, chain.GenesisOptions{EpochInterval: 3, NodeExpiration: 14, Prefix: []string{"escrow(e1->e0,400)", "escrow(e0->e1,200)", "escrow(e2->e1,300)", "escrow(a0->e1,100)", "escrow(a1->e1,333)chain"}})
